@@ -12,7 +12,7 @@ that worker runs to its exit.
 """
 from typing import List
 import billiard.pool as bp
-from harness.hbase import fail, tier, Prune, ND, PART, NPART, untraced
+from harness.hbase import fail, tier, Prune, ND, PART, NPART, untraced, NDCode, CODEMAX
 from harness import world as W
 
 K = tier(3, 4)
@@ -295,5 +295,238 @@ def h_terminate_twin(ev: List[int]) -> bool:
     """
     try:
         return _terminate(KINDS[PART % 4], 1 + (PART // 4) % 2, ev, True)
+    except Prune:
+        return True
+
+
+# ---------------------------------------------------------------------------
+# a worker dies in task code after close(): its job still fails with WorkerLostError and join() returns
+
+def _death_after_close(lwt, code, want):
+    from billiard.exceptions import WorkerLostError
+    nd = NDCode(code)
+    nproc = 1 + nd.draw(0, 1)
+    w = W.World()
+    p = w.make_pool(nproc, lost_worker_timeout=lwt)
+    obs = [W.Observer(p.apply_async(W.val, ('a%d' % i,)), 'apply') for i in range(nproc)]
+    for x in p._pool:
+        w.w_take(x)
+    w.drain_results()
+    victim = p._pool[nd.draw(0, nproc - 1)]
+    status = (-9, -15, 1, 0)[nd.draw(0, 3)]
+    p.close()
+    th = p._task_handler
+    th.body()
+    th.stop = lambda timeout=None: None
+    w.drain_until_sentinel()
+    polls = [0]
+    died = [False]
+
+    def idle(timeout):
+        polls[0] += 1
+        if polls[0] > 60:
+            raise Hang()
+        if not died[0]:
+            died[0] = True
+            w.w_exit(victim, status)            # dies in the middle of its task
+        else:
+            for x in p._pool:
+                if x.exitcode is None and x.state == 'busy':
+                    w.w_done(x)
+                    break
+                if x.exitcode is None and x.state == 'idle' and p._inqueue.q:
+                    w.w_take(x)
+                    break
+                if x.exitcode is None and x.state == 'leaving':
+                    w.w_leave(x)
+                    break
+        w.now = w.now + 1
+    p._outqueue._reader.idle_hook = idle
+
+    def on_join(proc):
+        n = 0
+        while proc.exitcode is None:
+            n += 1
+            if n > 20:
+                raise Hang()
+            if proc.state == 'idle' and p._inqueue.q:
+                w.w_take(proc)
+            elif proc.state == 'busy':
+                w.w_done(proc)
+            elif proc.state == 'leaving':
+                w.w_leave(proc)
+            else:
+                raise Hang()
+    w.join_hook = on_join
+    try:
+        p.join()
+    except Hang:
+        return fail('C07:J2:join-hangs-after-worker-death')
+    finally:
+        p._outqueue._reader.idle_hook = None
+        w.join_hook = None
+    if want:
+        return False
+    for i, o in enumerate(obs):
+        o.observe()
+        mine = p._pool and False
+        if not o.complete():
+            return fail('C07:J2:job-of-dead-worker-never-resolved-after-close' + (':lost-worker-timeout-longer-than-the-5s-shutdown-grace' if lwt >= 5 else ''))
+    lost = [o for o in obs if o.lost]
+    if len(lost) != 1:
+        return fail('C07:J2:wrong-number-of-lost-jobs-after-close')
+    for o in obs:
+        if not o.lost and o.outcomes != [(True, ('r', 'a%d' % obs.index(o)))]:
+            return fail('C07:J2:other-job-affected-by-death-after-close')
+    return True
+
+
+def h_death_after_close(lwt: int, code: int) -> bool:
+    """
+    pre: 1 <= lwt <= 12 and 0 <= code < CODEMAX
+    post: _
+    """
+    try:
+        return _death_after_close(lwt, code, False)
+    except Prune:
+        return True
+
+
+def h_death_after_close_twin(lwt: int, code: int) -> bool:
+    """
+    pre: 1 <= lwt <= 12 and 0 <= code < CODEMAX
+    post: _
+    """
+    try:
+        return _death_after_close(lwt, code, True)
+    except Prune:
+        return True
+
+
+# ---------------------------------------------------------------------------
+# close() / terminate() landing in the middle of a supervision pass (through the public process callbacks)
+
+def _midtick(code, want):
+    nd = NDCode(code)
+    which = ('close', 'terminate')[PART % 2]
+    w = W.World()
+    armed = [False]
+    fired = [False]
+    holder = {}
+
+    def on_down(worker):
+        if which == 'close' and armed[0] and not fired[0]:
+            fired[0] = True
+            holder['p'].close()               # the user closes the pool while the supervisor is between reaping and replacing
+
+    def on_up(worker):
+        if which == 'terminate' and armed[0] and not fired[0]:
+            fired[0] = True
+            holder['p'].terminate()           # terminate() while the supervisor is starting replacements
+    p = w.make_pool(3, lost_worker_timeout=LWT, on_process_down=on_down, on_process_up=on_up, keep_finalizer=(which == 'terminate'))
+    holder['p'] = p
+    try:
+        obs = W.Observer(p.apply_async(W.val, ('a0',)), 'apply')
+        busy = p._pool[2]
+        w.w_take(busy)
+        w.drain_results()
+        statuses = (0, 155, -9, 1)
+        nexit = 1 + nd.draw(0, 1)
+        for k in range(nexit):
+            w.w_exit(p._pool[k], statuses[nd.draw(0, 3)])
+        polls = [0]
+
+        def idle(timeout):
+            polls[0] += 1
+            if polls[0] > 60:
+                raise Hang('result handler still polling')
+            for x in w.procs:
+                if x.exitcode is None and x.got_term and x.obeys_term:
+                    x.die(-15)
+            for x in p._pool:
+                if x.exitcode is None and x.state == 'busy' and not x.got_term:
+                    w.w_done(x)
+                    break
+                if x.exitcode is None and x.state == 'idle' and p._inqueue.q:
+                    w.w_take(x)
+                    break
+                if x.exitcode is None and x.state == 'leaving':
+                    w.w_leave(x)
+                    break
+            w.now = w.now + 1
+
+        def on_join(proc):
+            n = 0
+            while proc.exitcode is None:
+                n += 1
+                if n > 20:
+                    raise Hang('join() on a worker that never exits')
+                if proc.got_term and proc.obeys_term:
+                    proc.die(-15)
+                elif proc.state == 'idle' and p._inqueue.q:
+                    w.w_take(proc)
+                elif proc.state == 'busy':
+                    w.w_done(proc)
+                elif proc.state == 'leaving':
+                    w.w_leave(proc)
+                else:
+                    raise Hang('join() on an idle worker that got no sentinel')
+        p._outqueue._reader.idle_hook = idle
+        w.join_hook = on_join
+        armed[0] = True
+        started = w.started
+        try:
+            w.tick()
+        except Hang as exc:
+            return fail('C08:terminate-does-not-return:mid-tick')
+        if not fired[0]:
+            raise Prune()
+        if want:
+            return False
+        if which == 'close':
+            if w.started != started:
+                return fail('C07:worker-started-after-close')
+            th = p._task_handler
+            th.body()
+            th.stop = lambda timeout=None: None
+            w.drain_until_sentinel()
+            try:
+                p.join()
+            except Hang as exc:
+                return fail('C07:J2:join-hangs:after-close-during-supervision')
+            if any(x.exitcode is None for x in w.procs):
+                return fail('C07:worker-alive-after-join')
+            if obs.observe().outcomes != [(True, ('r', 'a0'))]:
+                return fail('C07:J2:results-differ:apply')
+        else:
+            if w.started > started + 1:
+                return fail('C08:worker-started-after-terminate')
+            if any(x.exitcode is None for x in w.procs):
+                return fail('C08:worker-alive-after-terminate')
+        return True
+    finally:
+        p._outqueue._reader.idle_hook = None
+        w.join_hook = None
+        p._terminate.cancel()
+
+
+def h_midtick(code: int) -> bool:
+    """
+    pre: 0 <= code < CODEMAX
+    post: _
+    """
+    try:
+        return _midtick(code, False)
+    except Prune:
+        return True
+
+
+def h_midtick_twin(code: int) -> bool:
+    """
+    pre: 0 <= code < CODEMAX
+    post: _
+    """
+    try:
+        return _midtick(code, True)
     except Prune:
         return True
